@@ -5,7 +5,7 @@ import sys
 import time
 
 VERIF = os.path.dirname(os.path.dirname(os.path.abspath(__file__)))
-EVIDENCE_DIR = os.path.join(VERIF, 'evidence')
+EVIDENCE_DIR = os.environ.get('PMV_EVIDENCE_DIR') or os.path.join(VERIF, 'evidence')     # redirected by the seed / refactor tools only
 KNOWN = os.path.join(VERIF, 'known_findings.json')
 
 
